@@ -16,6 +16,13 @@ def term_succs(term):
     if k == "call":
         return [(term["target"], None)] if term["target"] >= 0 else []
     if k == "switch":
+        d = term.get("discr") or {}
+        if d.get("k") == "const" and d.get("int") is not None:
+            # a branch on a literal (`if false`, `if cfg!(..)`): only the matching edge exists
+            for v, b in term["arms"]:
+                if v == d["int"]:
+                    return [(b, v)]
+            return [(term["otherwise"], "otherwise")]
         r = [(b, v) for v, b in term["arms"]]
         r.append((term["otherwise"], "otherwise"))
         return r
